@@ -16,7 +16,7 @@ pub fn property() -> Property {
     Property {
         id: "C06",
         level: "fault_enumeration",
-        rule: "Payloads (empty, 1 byte, text, incompressible, highly repetitive up to 1 MiB, > 64 KiB) are compressed by reference encoders (flate2 levels 0-9 => stored and dynamic blocks; hand-written encoder => stored and fixed-Huffman blocks; gzip headers with FNAME/FCOMMENT/FEXTRA/FHCRC) and served with coding declarations in any letter case, alone or in a list, in Content-Encoding or Transfer-Encoding, under every framing, segmentation and read plan, for requests made with default settings, with allow_compression(false) on the request / session / prepared request, and with POST and DELETE (decoding depends only on what the response declares); unknown codings (br, identity, x-gzip, none) must pass through byte-for-byte; the Accept-Encoding field on the wire must be present iff compression is allowed. Faults: EVERY truncation offset of the compressed stream of 10 fixed streams (exhaustive; framing adjusted so that only the compression layer can notice - with Content-Length framing the REST of the compressed stream follows the frame on the connection and must not reach the decoder -, or left short), EVERY single-bit flip of the 8 gzip trailer bytes, bit flips in the deflate body (gzip: Err or identical payload); json()/json_utf8() against every trailer bit flip and every cut inside the trailer of a gzip-coded JSON document. Oracle: payload is ground truth; prefix rule after every read; damaged stream must end with Err. Non-trivial: compressed stream non-empty; distinct = hash(wire, fault, segmentation, plan).",
+        rule: "Payloads (empty, 1 byte, text, incompressible, highly repetitive up to 1 MiB, > 64 KiB) are compressed by reference encoders (flate2 levels 0-9 => stored and dynamic blocks; hand-written encoder => stored and fixed-Huffman blocks; gzip headers with FNAME/FCOMMENT/FEXTRA/FHCRC) and served with coding declarations in any letter case, alone or in a list (members separated by blanks and/or horizontal tabs), under statuses 200/201/206/404/500 and the unfollowed 3xx codes 300/305/399, in Content-Encoding or Transfer-Encoding, under every framing, segmentation and read plan, for requests made with default settings, with allow_compression(false) on the request / session / prepared request, and with POST and DELETE (decoding depends only on what the response declares); unknown codings (br, identity, x-gzip, none) must pass through byte-for-byte; the Accept-Encoding field on the wire must be present iff compression is allowed. Faults: EVERY truncation offset of the compressed stream of 10 fixed streams (exhaustive; framing adjusted so that only the compression layer can notice - with Content-Length framing the REST of the compressed stream follows the frame on the connection and must not reach the decoder -, or left short), EVERY single-bit flip of the 8 gzip trailer bytes, bit flips in the deflate body (gzip: Err or identical payload); json()/json_utf8() against every trailer bit flip and every cut inside the trailer of a gzip-coded JSON document. Oracle: payload is ground truth; prefix rule after every read; damaged stream must end with Err. Non-trivial: compressed stream non-empty; distinct = hash(wire, fault, segmentation, plan).",
         assumptions: &["zlib-wrapped deflate and multi-member gzip are not generated (not fixed by the statement)", "flips inside a raw deflate body are not judged (no integrity check exists there)"],
         min_nontrivial: |t| t.pick(3_000, 60_000),
         gens,
@@ -118,7 +118,21 @@ fn declaration(rng: &mut Rng, ctx: &mut Ctx, coding: Coding) -> (Vec<(String, Ve
         Coding::Gzip => *rng.pick(&["gzip", "GZIP", "Gzip", "gZiP"]),
         Coding::Deflate => *rng.pick(&["deflate", "DEFLATE", "Deflate"]),
     };
-    match rng.below(7) {
+    match rng.below(10) {
+        // optional white space around list members is SP / HTAB
+        7 => {
+            ctx.count("coding_next_to_a_tab", 1);
+            (vec![("Content-Encoding".into(), format!("identity,\t{word}").into_bytes())], false)
+        }
+        8 => {
+            ctx.count("coding_next_to_a_tab", 1);
+            (vec![("Content-Encoding".into(), format!("\t{word}\t").into_bytes())], false)
+        }
+        9 => {
+            ctx.count("coding_next_to_a_tab", 1);
+            ctx.count("coding_in_transfer_encoding", 1);
+            (vec![("Transfer-Encoding".into(), format!("{word}\t,\tchunked").into_bytes())], true)
+        }
         6 => {
             // the coding list split over two Content-Encoding fields (equivalent to `identity, <coding>`)
             ctx.count("coding_list_split_over_fields", 1);
@@ -142,9 +156,9 @@ pub fn payload_for(rng: &mut Rng, max: usize) -> Vec<u8> {
     let len = match rng.below(8) {
         0 => 0,
         1 => 1,
-        2 | 3 => rng.range(2, 400),
-        4 => rng.range(400, if crate::framework::small_mode() { 900 } else { 9000 }),
-        _ => rng.range(0, if crate::framework::small_mode() { max.min(1500) } else { max }),
+        2 | 3 => rng.range(2, if crate::framework::small_mode() { 120 } else { 400 }),
+        4 => rng.range(if crate::framework::small_mode() { 100 } else { 400 }, if crate::framework::small_mode() { 300 } else { 9000 }),
+        _ => rng.range(0, if crate::framework::small_mode() { max.min(400) } else { max }),
     };
     match rng.below(4) {
         0 => rng.bytes(len),                                  // incompressible
@@ -197,7 +211,11 @@ pub fn run_case(ctx: &mut Ctx, rng: &mut Rng, c: &Case, label: &str) {
         }
         _ => (vec![], if c.framing_adjusted { stream.len() } else { full_len }),
     };
-    let mut b = build_response("HTTP/1.1 200 OK", &c.headers, if c.framing == Framing::Length { Framing::Close } else { c.framing }, &stream, &sizes, &[Default::default()], b"");
+    // the statement does not depend on the status: also error statuses and 3xx codes that are not
+    // followed (300, 305, 399; redirects are followed by default in these requests)
+    let status_line = *rng.pick(&["HTTP/1.1 200 OK", "HTTP/1.1 200 OK", "HTTP/1.1 200 OK", "HTTP/1.1 201 Created", "HTTP/1.1 206 Partial Content", "HTTP/1.1 404 Not Found", "HTTP/1.1 500 Oops", "HTTP/1.1 300 Multiple Choices", "HTTP/1.1 305 Use Proxy", "HTTP/1.1 399 Unassigned"]);
+    ctx.set_add("status_lines", status_line.to_owned());
+    let mut b = build_response(status_line, &c.headers, if c.framing == Framing::Length { Framing::Close } else { c.framing }, &stream, &sizes, &[Default::default()], b"");
     if c.framing == Framing::Length {
         // insert the Content-Length by hand (it may deliberately exceed what is served)
         let mut head = b.wire[..b.head_len - 2].to_vec();
@@ -263,7 +281,7 @@ pub fn run_case(ctx: &mut Ctx, rng: &mut Rng, c: &Case, label: &str) {
         _ => RequestBuilder::new(Method::DELETE, url).allow_compression(false).prepare().send(),
     };
     ctx.count(["request_default", "request_default", "request_compression_not_allowed", "session_compression_not_allowed", "request_post", "request_delete_prepared_compression_not_allowed"][how as usize], 1);
-    let descr = |extra: &str| format!("{}; request variant {how}", descr(extra));
+    let descr = |extra: &str| format!("{}; request variant {how}; {status_line}", descr(extra));
     let resp = match sent {
         Ok(r) => r,
         Err(e) => {
